@@ -129,9 +129,24 @@ fn dangling(l: &Layout) -> *mut u8 {
 // ---------------------------------------------------------------------------------------
 // GuardMem: resizable, relocating
 
-#[derive(Clone)]
 pub struct GuardB {
     pub tag: u32,
+}
+thread_local! {
+    static NEXT_CLONE_TAG: std::cell::Cell<u32> = const { std::cell::Cell::new(1_000_000) };
+}
+/// A cloned builder builds storage for *another* vector: it gets a tag of its own.
+fn fresh_clone_tag() -> u32 {
+    NEXT_CLONE_TAG.with(|t| {
+        let v = t.get();
+        t.set(v + 1);
+        v
+    })
+}
+impl Clone for GuardB {
+    fn clone(&self) -> Self {
+        GuardB { tag: fresh_clone_tag() }
+    }
 }
 
 pub struct GuardMem {
@@ -312,10 +327,14 @@ impl MemBuilderSizeable for GuardB {
 // ---------------------------------------------------------------------------------------
 // FixedB: fixed capacity, default `expand` (panics)
 
-#[derive(Clone)]
 pub struct FixedB {
     pub tag: u32,
     pub cap: usize,
+}
+impl Clone for FixedB {
+    fn clone(&self) -> Self {
+        FixedB { tag: fresh_clone_tag(), cap: self.cap }
+    }
 }
 pub struct FixedMem {
     inner: GuardMem,
